@@ -49,6 +49,9 @@ type procCase struct {
 	// StopFirst: Stop is called before the queue is closed (as concurrent.Map does), once every
 	// result has been taken; the workers still exit and the result channel is still closed
 	StopFirst bool `json:"stop_first,omitempty"`
+	// WaitFirst: the result buffer holds every result (Buffer >= Ops) and the caller submits, closes
+	// the queue and waits for the workers before it collects anything
+	WaitFirst bool `json:"wait_first,omitempty"`
 }
 
 type mapCall struct {
@@ -95,6 +98,12 @@ func childFail(kind, format string, a ...interface{}) {
 // that is still running on a busy machine is waited for, a call whose goroutines are all blocked
 // on channels or locks is not (vlib.ConfirmDeadlock).
 func within(d time.Duration, f func()) bool {
+	limit := 45 * time.Second
+	if os.Getenv("VERIF_C19_SHORT") != "" {
+		// the parent has already seen a call that did not return: this run only serves to shrink or
+		// to confirm that case, and waits much less
+		d, limit = 5*time.Second, 10*time.Second
+	}
 	done := make(chan struct{})
 	go func() { f(); close(done) }()
 	select {
@@ -109,7 +118,7 @@ func within(d time.Duration, f func()) bool {
 				return false
 			}
 		}
-		return !vlib.ConfirmDeadlock(75*time.Second, fin)
+		return !vlib.ConfirmDeadlock(limit, fin)
 	}
 }
 
@@ -183,6 +192,11 @@ func runProc(c procCase) {
 			}
 			p.Close()
 		}()
+		if c.WaitFirst {
+			if !within(20*time.Second, p.Wait) {
+				childFail("workers-do-not-exit", "rep %d: Wait did not return within 20 s after the queue was closed with %d results waiting in a result buffer of %d (%d workers)", rep, c.Ops, c.Buffer, eff)
+			}
+		}
 		got := map[string]int{}
 		ok := within(20*time.Second, func() {
 			for i := 0; i < c.Ops; i++ {
@@ -282,11 +296,28 @@ func runMap(c mapCall) {
 	}
 }
 
+// sawHang is set once a child has reported a call that did not return; later children (the shrinker's
+// and the confirmation runs) use short bounds.
+var sawHang atomic.Bool
+
+var hangKinds = map[string]bool{"results-missing": true, "workers-do-not-exit": true, "result-channel-not-closed": true, "map-hangs": true}
+
 func runChild(job childJob) *vlib.Failure {
+	f := runChild1(job)
+	if f != nil && hangKinds[f.Kind] {
+		sawHang.Store(true)
+	}
+	return f
+}
+
+func runChild1(job childJob) *vlib.Failure {
 	b, _ := json.Marshal(job)
 	bin := os.Args[0]
 	cmd := exec.Command(bin, "-test.run", "^$")
 	cmd.Env = append(os.Environ(), "VERIF_C19_CHILD="+string(b), "VERIF_STATS=")
+	if sawHang.Load() {
+		cmd.Env = append(cmd.Env, "VERIF_C19_SHORT=1")
+	}
 	var out bytes.Buffer
 	cmd.Stdout, cmd.Stderr = &out, &out
 	done := make(chan error, 1)
@@ -345,6 +376,12 @@ func TestProcessor(t *testing.T) {
 			}
 			c.PanicLast = c.Ops > 0 && rapid.IntRange(0, 3).Draw(t, "panic-last") == 0
 			c.StopFirst = rapid.IntRange(0, 3).Draw(t, "stop-first") == 1
+			if !c.StopFirst && rapid.IntRange(0, 3).Draw(t, "wait-first") == 2 {
+				c.WaitFirst = true
+				if c.Buffer < c.Ops {
+					c.Buffer = c.Ops
+				}
+			}
 			return c
 		},
 		Check: func(c procCase) *vlib.Failure { return runChild(childJob{Proc: &c}) },
@@ -364,6 +401,9 @@ func TestProcessor(t *testing.T) {
 			}
 			if c.StopFirst {
 				l = append(l, "stop-before-close")
+			}
+			if c.WaitFirst && c.Ops > 0 {
+				l = append(l, "wait-before-any-result-is-collected")
 			}
 			return l
 		},
